@@ -75,6 +75,12 @@ SaveA ==
     /\ UNCHANGED <<lines, recs, touched, autosave>>
     /\ obs' = Obs("save", <<>>, "ok")
 
+\* export to some other path: the bound file, its stamps and the database are not involved
+SaveCopyA ==
+    /\ Step
+    /\ UNCHANGED <<lines, recs, touched, disk, dmt, dtouched, lmt, autosave>>
+    /\ obs' = Obs("save_copy", <<>>, "ok")
+
 \* somebody else rewrites the file (the file system's mtime changes on every write: assumption)
 ExternalWriteA(c) ==
     /\ Step
@@ -113,19 +119,20 @@ Next ==
     \/ \E k \in Keys \cup BadKeys, p \in Pws : SetPasswordA(k, p) \/ CheckPasswordA(k, p)
     \/ \E k \in Keys \cup BadKeys : DeleteA(k) \/ GetHashA(k)
     \/ \E k \in Keys, h \in {[pw |-> "-", gen |-> "raw1"]} \cup [pw : Pws, gen : {"old"}] : SetHashA(k, h)
-    \/ SaveA \/ LoadA \/ LoadIfChangedA
+    \/ SaveA \/ SaveCopyA \/ LoadA \/ LoadIfChangedA
     \/ \E c \in InitContents : ExternalWriteA(c) \/ LoadStringA(c)
 
 SimNext ==
     LET k  == RandomElement(Keys \cup BadKeys)  gk == RandomElement(Keys)
         p  == RandomElement(Pws)                c  == RandomElement(InitContents)
         h  == RandomElement({[pw |-> "-", gen |-> "raw1"], [pw |-> "-", gen |-> "raw2"]} \cup [pw : Pws, gen : {"old"}])
-        w  == RandomElement(1..14)
+        w  == RandomElement(1..15)
     IN CASE w \in {1, 2, 3} -> SetPasswordA(k, p) [] w \in {4, 5} -> CheckPasswordA(k, p)
          [] w \in {6, 7} -> DeleteA(k)            [] w = 8 -> GetHashA(k)
          [] w = 9 -> SetHashA(gk, h)              [] w = 10 -> SaveA
          [] w = 11 -> LoadA                       [] w = 12 -> LoadIfChangedA
-         [] w = 13 -> ExternalWriteA(c)           [] OTHER -> LoadStringA(c)
+         [] w = 13 -> ExternalWriteA(c)           [] w = 14 -> SaveCopyA
+         [] OTHER -> LoadStringA(c)
 
 \* ---- properties (C16) ------------------------------------------------------------
 Exported == Export(lines, recs)
